@@ -168,6 +168,7 @@ package engine
 //@   requires en != nil && en.rs != nil && (en.initd || en.execd ==> engOk(en))
 //@   requires[C08] en.initd || en.execd ==> vm.lockstep(en.vm) && !en.exiting
 //@   modifies everything except f:engine.Config., f:engine.DefaultEngine.rs, f:engine.DefaultEngine.first, f:engine.DefaultEngine.initd, f:engine.DefaultEngine.dbg, f:engine.DefaultEngine.regexCount, f:render.Sizer.outputSize, f:state.State.BitSize, f:state.State.Flags, count(extcalls), count(codegets), count(written)
+//@   ensures @nocalls !old(en.execd) ==> count(extcalls) == old(count(extcalls)) && count(codegets) == old(count(codegets)) && count(written) == old(count(written))
 //@   ensures @ready result == nil ==> engOk(en)
 //@   ensures @alloc !old(en.initd) && result == nil ==> allocated(en.st) && allocated(en.st.Flags)
 //@   ensures[C07] @forgotten result == nil ==> !en.execd && len(en.exit) == 0 && !en.exiting
@@ -191,6 +192,10 @@ package engine
 //@   ensures[C08] @lockstep result1 == nil ==> vm.lockstep(en.vm)
 //@   ensures[C07] @forgotten result1 == nil && result0 ==> !en.execd && len(en.exit) == 0 && !en.exiting
 //@   ensures[C17] @idle old(idle(en)) ==> result0 && result1 == nil && sessionKept(en)
+// a first request (every request of an engine-per-request deployment) with over-long input is refused before the entry function runs
+//@   ensures[C17] @toolong !old(en.initd) && len(input) > 255 ==> result1 != nil
+//@   ensures[C17] @toolongcalls !old(en.initd) && len(input) > 255 ==> count(extcalls) == old(count(extcalls))
+//@   ensures[C17] @toolonginit !old(en.initd) && len(input) > 255 ==> !en.initd
 
 // Exec: refused input (bad format, or longer than the limit) is an error for
 // that request only (C17).
@@ -207,6 +212,8 @@ package engine
 //@   modifies everything except f:engine.Config., f:engine.DefaultEngine.rs, f:engine.DefaultEngine.first, f:engine.DefaultEngine.dbg, f:engine.DefaultEngine.regexCount, f:state.State.BitSize, f:state.State.Flags, f:render.Sizer.outputSize, count(extcalls), count(codegets), count(written), count(rejected)
 //@   ensures[C17] @format old(idle(en)) && count(rejected) != old(count(rejected)) ==> result1 != nil && sessionKept(en)
 //@   ensures[C17] @length old(idle(en)) && len(input) > 255 ==> result1 != nil && sessionKept(en)
+//@   ensures[C17] @firstlength !old(en.initd) && len(input) > 255 ==> result1 != nil && count(extcalls) == old(count(extcalls))
+//@   ensures[C17] @firstformat !old(en.initd) && count(rejected) != old(count(rejected)) ==> result1 != nil && count(extcalls) == old(count(extcalls))
 
 // Reset (ResetOnEmptyInput): start over at the entry node.
 //@ func (*DefaultEngine).Reset
